@@ -53,7 +53,11 @@ fn bytes_around(lens: &'static [usize], max: usize) -> impl Strategy<Value = Vec
 pub fn recipe() -> impl Strategy<Value = Recipe> {
     let distr = prop::option::weighted(0.25, (any::<bool>(), prop::collection::vec(any::<u8>(), 28)));
     // derivation path: in real addresses a CBOR byte string holding the ~28-byte encrypted path
-    let path = prop::option::weighted(0.5, bytes_around(&[30, 0, 1, 23, 24], 40));
+    // (1 in 12 paths is long enough to push the whole address beyond 132 bytes)
+    let path = prop::option::weighted(
+        0.5,
+        prop_oneof![11 => bytes_around(&[30, 0, 1, 23, 24], 40), 1 => prop::collection::vec(any::<u8>(), 41..=140)],
+    );
     // network tag: in real addresses a CBOR-encoded protocol magic (1..5 bytes)
     let tag = prop::option::weighted(0.5, bytes_around(&[5, 1, 2, 3], 8));
     (
@@ -181,6 +185,10 @@ enum Parsed {
     NotByron(String),
     Rejected,
 }
+
+/// Serialised addresses longer than this cannot be read back from base58 on the unchanged tree
+/// (finding C19-2); used only to give that failure a signature of its own.
+const BASE58_LIMIT: usize = 132;
 
 pub const ENTRIES: [&str; 7] = [
     "ByronAddress::from_bytes",
@@ -370,9 +378,15 @@ fn check_roundtrip(s: &Session, r: &Recipe, obs: &mut Obs) -> Result<(), Fail> {
             Parsed::Byron(b) if b == a => {}
             Parsed::Byron(b) => v.fail(&format!("roundtrip-mismatch:{entry}"), format!("{entry} of {} gives {:?}, expected {:?}", hex::encode(&bytes), b, a)),
             Parsed::NotByron(o) => v.fail(&format!("roundtrip-mismatch:{entry}"), format!("{entry} of {} gives {o}", hex::encode(&bytes))),
+            // root cause of its own: the base58 decoder gives up on inputs longer than 132 bytes
+            Parsed::Rejected if bytes.len() > BASE58_LIMIT && entry.contains("base58") => v.fail(
+                &format!("base58-decode-length-limit:{entry}"),
+                format!("{entry} rejects the valid {}-byte address {} that to_base58() printed ({})", bytes.len(), hex::encode(&bytes), want58),
+            ),
             Parsed::Rejected => v.fail(&format!("valid-address-rejected:{entry}"), format!("{entry} rejects the valid address {} ({})", hex::encode(&bytes), want58)),
         }
     }
+    obs.class(if bytes.len() > BASE58_LIMIT { "address-length:>132" } else { "address-length:<=132" });
     obs.class(format!("type:{ty}"));
     obs.class(r.attr_set_name());
     if r.attrs.len() >= 2 {
@@ -570,9 +584,9 @@ pub fn run(s: &Session) {
         s.health(false, &bad);
     }
     s.foreach("mainnet-vectors", MAINNET_VECTORS.iter().map(|v| v.to_string()).collect(), false, |c, o| check_vector(s, c, o));
-    s.forall("roundtrip", s.pick(40_000, 1_000_000), recipe, |c, o| check_roundtrip(s, c, o));
-    s.forall("single-bit-flips", s.pick(2_000, 60_000), recipe, |c, o| check_flips(s, c, o));
-    s.forall("forged", s.pick(40_000, 1_000_000), forge_case, |c, o| check_forged(s, c, o));
+    s.forall("roundtrip", s.pick(80_000, 2_000_000), recipe, |c, o| check_roundtrip(s, c, o));
+    s.forall("single-bit-flips", s.pick(5_000, 150_000), recipe, |c, o| check_flips(s, c, o));
+    s.forall("forged", s.pick(80_000, 2_000_000), forge_case, |c, o| check_forged(s, c, o));
 
     for t in ["PubKey", "Script", "Redeem", "Other"] {
         s.health(s.class_count(&format!("type:{t}")) > 0, &format!("no address of type {t} generated"));
@@ -581,6 +595,7 @@ pub fn run(s: &Session) {
     for a in ["attrs:none", "attrs:path", "attrs:tag", "attrs:path+tag", "attrs:2+"] {
         s.health(s.class_count(a) > 0, &format!("attribute set {a} never generated"));
     }
+    s.health(s.class_count("address-length:>132") > 0, "no address longer than 132 bytes generated");
     s.health(s.class_count("flips:payload-content") > 0 && s.class_count("flips:crc-value") > 0, "no payload / checksum flips were made");
     for f in ["forge:crc-xor", "forge:payload-damage", "forge:arbitrary-mismatching", "forge:wide-crc-mismatching"] {
         s.health(s.class_count(f) > 0, &format!("{f} never generated"));
